@@ -255,6 +255,8 @@ F7 ==    {FileS(<<Elem("v", <<Attr("model:", "v", EV(e))>>, <<>>)>>) : e \in LAl
     \cup {FileS(<<SlotEl(None, <<Attr("plain", n, EV(e))>>)>>) : n \in {"bindtap", "p"}, e \in {Mem(Id("m"), "f"), Mem(Id("x"), "f"), Id("a")}}
     \cup {FileS(<<For(EV(l), "item", "index", "", <<Elem("v", <<Attr("model:", "v", EV(e))>>, <<>>)>>)>>) :
              l \in {Id("l"), Id("ol"), Mem(Id("o"), "q"), Arr(<<Item(Id("a")), Item(Id("b"))>>), Cond(Id("c"), Id("l"), Id("ol")),
+                    (* a conditional list with one branch that is no path: its items have a path only when the other branch is taken *)
+                    Cond(Id("c"), Id("l"), Lit("2")), Cond(Id("c"), Lit("'ab'"), Id("l")),
                     Mem(Idx(Id("l"), Lit("0")), "sub"), Bin("||", Id("l"), Id("ol")), Call(Id("f"), <<Id("l")>>),
                     Mem(Cond(Id("c"), Idx(Id("l"), Lit("0")), Idx(Id("l"), Lit("0"))), "sub"),
                     Mem(Cond(Id("c"), Cond(Id("a"), Idx(Id("l"), Lit("0")), Idx(Id("l"), Lit("0"))), Idx(Id("l"), Lit("0"))), "sub")},
